@@ -30,10 +30,12 @@ fn main() {
     // panics are observations, not noise
     std::panic::set_hook(Box::new(|_| {}));
     let stdout = std::io::stdout();
-    let mut em = Emit {
-        out: Box::new(std::io::BufWriter::with_capacity(1 << 20, stdout)),
-        n: 0,
-    };
+    let shared = common::SharedOut(std::sync::Arc::new(std::sync::Mutex::new(
+        std::io::BufWriter::with_capacity(1 << 20, stdout),
+    )));
+    let idle_limit = std::env::var("HS_HANG_SECS").ok().and_then(|s| s.parse().ok()).unwrap_or(60);
+    common::start_watchdog(shared.clone(), idle_limit);
+    let mut em = Emit { out: Box::new(shared), n: 0 };
     // HS_SHARD=i/k splits the schedule suites over k processes; everything else runs in shard 0
     let shard0 = std::env::var("HS_SHARD").map_or(true, |s| s.starts_with("0/"));
     match prop {
